@@ -37,6 +37,19 @@ def effectiveFrom {β : Type} (es : List (Str × β)) : List (Str × Bool × β)
 accepted write wins -/
 def effective {β : Type} (ops : List (Str × Bool × β)) : List (Str × β) := effectiveFrom [] ops
 
+/-- closed form of the value stored under one name, reading only the calls that name it: the
+first call defines it, a later call replaces it iff it allows shadowing (`cur` = value so far) -/
+def storedFrom {β : Type} (cur : Option β) (n : Str) : List (Str × Bool × β) → Option β
+  | [] => cur
+  | op :: r =>
+    if op.1 == n then
+      match cur with
+      | none => storedFrom (some op.2.2) n r
+      | some y => if op.2.1 then storedFrom (some op.2.2) n r else storedFrom (some y) n r
+    else storedFrom cur n r
+
+def stored {β : Type} (ops : List (Str × Bool × β)) (n : Str) : Option β := storedFrom none n ops
+
 /-- the entry that answers a semver-aware lookup of `q` in `es`: the exact match, else the
 highest version on the track of `q` (the entry `getSpec` takes its answer from) -/
 def answerEntry {β : Type} (es : List (Str × β)) (q : Str) : Option (Str × β) :=
